@@ -17,12 +17,17 @@ class Prop:
             "callback site, and right after subscribe() returns. After dispose() returned: no notification, no instrumented callback, no new "
             "source subscription, and every source subscription opened for the subscriber closed by the end of that virtual instant. "
             "evaluations counts executed runs; distinct = (operators, dispose point, observed kinds); non-trivial = the dispose cut a live "
-            "subscription (the undisturbed run produced a later event).")
+            "subscription (the undisturbed run produced a later event). 8% of the scenarios use library sources (generate, range, from_iterable, "
+            "repeat_value, defer, create+subscribe_on) on the current-thread trampoline instead: subscribed from inside a trampolined "
+            "action so that their work queues up, then unsubscribed before it runs (explicitly, by a queued action, or by take(k)); no callback "
+            "of a source whose queued work had not started may run afterwards.")
     assumptions = ["single thread / virtual time", "window and group subscribers are unsubscribed together with the root (the statement's exception for live group/window subscribers is not exercised strictly: a second variant leaves them alive and only checks root silence)",
                    "rogue sources excluded"]
     stubs = []
 
     def generate(self, rng, tier):
+        if rng.random() < 0.08:
+            return self.gen_trampoline(rng)
         depth = rng.choice([1, 1, 2, 2, 3])
         sc = pipe.gen(rng, depth, max_sources=3)
         sc["keep_children"] = rng.random() < 0.2
@@ -56,7 +61,133 @@ class Prop:
         last_seq = max([e[0] for r in rec.all_recorders() for e in r.events] + [c[0] for c in w.calls] + [0])
         return pts, base, last_seq
 
+    # ------------------------------------------------------------ library sources on the current-thread trampoline
+    T_KINDS = ["generate", "generate", "range", "from_iterable", "repeat_value", "create_subscribe_on", "defer_generate"]
+
+    def gen_trampoline(self, rng):
+        return {"mode": "trampoline", "srcs": [{"kind": rng.choice(self.T_KINDS), "n": rng.randrange(1, 5)} for _ in range(rng.choice([1, 2, 2, 3]))],
+                "comb": rng.choice(["merge", "merge", "concat", "zip", "combine_latest", "amb", "flat_map"]),
+                "take": rng.choice([None, None, 1, 1, 2]), "dispose": rng.choice(["pre_queued", "pre_queued", "after_subscribe", None])}
+
+    def exec_trampoline(self, sc):
+        """The subscription is made from inside an action of the current-thread scheduler, so everything the library sources
+        schedule queues up behind it; the subscriber unsubscribes before that work runs (explicitly, from a queued action of
+        its own, or because take(k) is satisfied by the first source).  Nothing of a source that was unsubscribed before its
+        queued work started may run afterwards."""
+        import reactivex as rx
+        from reactivex import operators as ops
+        from reactivex.scheduler import CurrentThreadScheduler
+        out = Outcome()
+        tick = [0]
+        calls = []  # (tick, source index, what)
+        notes = []  # (tick, kind)
+        running = []
+
+        def cb(i, what):
+            tick[0] += 1
+            calls.append((tick[0], i, what))
+
+        def src(i, spec):
+            k, n = spec["kind"], spec["n"]
+
+            def gen_():
+                return rx.generate(0, lambda s_: cb(i, "condition") or s_ < n, lambda s_: cb(i, "iterate") or s_ + 1)
+            if k == "generate":
+                return gen_()
+            if k == "defer_generate":
+                return rx.defer(lambda sch: cb(i, "factory") or gen_())
+            if k == "range":
+                return rx.range(0, n).pipe(ops.map(lambda v: cb(i, "map") or v))
+            if k == "from_iterable":
+                def it():
+                    for v in range(n):
+                        cb(i, "next()")
+                        yield v
+                return rx.from_iterable(it())
+            if k == "repeat_value":
+                return rx.repeat_value(i, n).pipe(ops.map(lambda v: cb(i, "map") or v))
+
+            def subscribe(observer, scheduler=None):
+                cb(i, "create.subscribe")
+                for v in range(n):
+                    observer.on_next(v)
+                observer.on_completed()
+            return rx.create(subscribe).pipe(ops.subscribe_on(CurrentThreadScheduler.singleton()))
+
+        xs = [src(i, s_) for i, s_ in enumerate(sc["srcs"])]
+        comb = sc["comb"]
+        if len(xs) == 1:
+            obs = xs[0]
+        elif comb == "merge":
+            obs = rx.merge(*xs)
+        elif comb == "concat":
+            obs = rx.concat(*xs)
+        elif comb == "zip":
+            obs = rx.zip(*xs)
+        elif comb == "combine_latest":
+            obs = rx.combine_latest(*xs)
+        elif comb == "amb":
+            obs = rx.amb(*xs)
+        else:
+            obs = rx.from_iterable(list(range(len(xs)))).pipe(ops.flat_map(lambda j: xs[j]))
+        if sc["take"]:
+            obs = obs.pipe(ops.take(sc["take"]))
+        box = {"disp_ret": None, "term": None}
+
+        def note(kind):
+            tick[0] += 1
+            notes.append((tick[0], kind))
+            if kind in "CE" and box["term"] is None:
+                box["term"] = tick[0]
+
+        def do_dispose():
+            if box.get("sub") is not None and box["disp_ret"] is None:
+                box["sub"].dispose()
+                tick[0] += 1
+                box["disp_ret"] = tick[0]
+
+        def outer(sch, st=None):
+            if sc["dispose"] == "pre_queued":
+                sch.schedule(lambda s2, st2=None: do_dispose())
+            box["sub"] = obs.subscribe(lambda v: note("N"), lambda e: note("E"), lambda: note("C"))
+            if sc["dispose"] == "after_subscribe":
+                do_dispose()
+
+        esc = None
+        try:
+            CurrentThreadScheduler.singleton().schedule(outer)
+        except Exception as e:  # noqa: BLE001
+            esc = e
+        started = {}
+        for t, i, what in calls:
+            started.setdefault(i, t)
+        out.digest = ("trampoline", repr(sc["srcs"]), sc["comb"], sc["take"], sc["dispose"], len(calls), "".join(k for _, k in notes))
+        out.nontrivial = box["disp_ret"] is not None or box["term"] is not None
+        out.probes["trampoline_mode"] += 1
+        desc = "trampoline sources=%s comb=%s take=%s dispose=%s" % (sc["srcs"], sc["comb"], sc["take"], sc["dispose"])
+        if esc is not None:
+            out.bad("escaped", "%s: %r escaped the trampoline" % (desc, esc))
+            return out
+        cut = box["disp_ret"]
+        if cut is not None:
+            out.faults["dispose_trampoline"] += 1
+            late_n = [n_ for n_ in notes if n_[0] > cut]
+            if late_n:
+                out.bad("notify-after-dispose", "%s: %d notification(s) after dispose() returned" % (desc, len(late_n)))
+            late = [c for c in calls if c[0] > cut]
+            if late and not out.viol:
+                out.bad("callback-after-dispose", "%s: %s of source %d ran after dispose() had returned (the subscription was unsubscribed while that work was still queued)" % (desc, late[0][2], late[0][1]))
+        elif box["term"] is not None:
+            # sources whose queued work had not started when the subscriber's terminal notification was delivered
+            fresh = [c for c in calls if c[0] > box["term"] and started[c[1]] > box["term"]]
+            if fresh:
+                out.bad("callback-after-dispose", "%s: %s of source %d ran after the subscriber had terminated; that source's queued work had not started by then" % (desc, fresh[0][2], fresh[0][1]))
+        out.info = {"scenario": desc, "calls": len(calls)}
+        return out
+
     def execute(self, sc):
+        if sc.get("mode") == "trampoline":
+            return self.exec_trampoline(sc)
         if "dispose" in sc:
             return self.one(sc, Outcome())
         out = Outcome()
